@@ -1,4 +1,5 @@
 import PyCraft.Props.C15
+import PyCraft.Props.C15Thread
 #print axioms PyCraft.C15.prefix_delivers_complete_only
 #print axioms PyCraft.C15.prefix_delivers_complete_only_encrypted
 #print axioms PyCraft.C15.reads_after_eof_le_two
@@ -6,3 +7,17 @@ import PyCraft.Props.C15
 #print axioms PyCraft.C15.read_packet_on_exhausted
 #print axioms PyCraft.C15.read_packet_consumes
 #print axioms PyCraft.C15.readAll_total
+#print axioms PyCraft.C15Thread.status_cut_eof
+#print axioms PyCraft.C15Thread.cut_delivers_complete_only
+#print axioms PyCraft.C15Thread.cut_delivers_complete_only_nested
+#print axioms PyCraft.C15Thread.thread_bounded
+#print axioms PyCraft.C15Thread.cut_outcome
+#print axioms PyCraft.C15Thread.connect_bounded
+#print axioms PyCraft.C15Thread.cut_takes_fallback
+#print axioms PyCraft.C15Thread.status_cut_takes_fallback
+#print axioms PyCraft.C15Thread.login_cut_reports
+#print axioms PyCraft.C15Thread.live_reactor_handlers
+#print axioms PyCraft.C15Thread.live_exception_classes
+#print axioms PyCraft.C15Thread.live_installed_reactor
+#print axioms PyCraft.C15Thread.moved_fallback_refuted
+#print axioms PyCraft.C15Thread.late_switch_refuted
